@@ -517,7 +517,7 @@ void Interpolation_2D::Save_Function(std::string filename, unsigned int x_points
 // Root finding with Ridder's method
 double Find_Root(std::function<double(double)> func, double xLeft, double xRight, double xAccuracy)
 {
-	const int Max_Iterations = 200;	  // the bracket at least halves per iteration: enough for (bracket width)/xAccuracy up to 2^200
+	const int Max_Iterations = 2200;   // the bracket at least halves per iteration: enough for every (bracket width)/xAccuracy of doubles (< 2^2100)
 	// 1. Check if xLeft<xRight, otherwise swap.
 	if(xLeft > xRight)
 	{
